@@ -2445,8 +2445,13 @@ impl<'a> CodeGenerator<'a> {
                                 return acc;
                             }
 
-                            let index = if let Some(tag) =
-                                constr.decorators.iter().find_map(|d| match &d.kind {
+                            // a record declared as `@tag(n) pub type T { .. }` carries its tag on the
+                            // type, not on its (only) constructor
+                            let index = if let Some(tag) = constr
+                                .decorators
+                                .iter()
+                                .chain(data_type.decorators.iter())
+                                .find_map(|d| match &d.kind {
                                     DecoratorKind::Tag { value, .. } => Some(value),
                                     _ => None,
                                 }) {
